@@ -137,7 +137,15 @@ def run(ctx):
             ctx.missing("C10.R1", fn)
             continue
         f = fs[0]
-        scope = [f] + [g_ for g_ in prog.fns.values() if g_.info.get("closure_of") == f.key]
+        scope = [f]
+        grew_ = True
+        while grew_:           # closures of f, transitively (a comparison closure nested in a try_for_each / for_each closure)
+            grew_ = False
+            keys_ = {g_.key for g_ in scope}
+            for g_ in prog.fns.values():
+                if g_.info.get("closure_of") in keys_ and g_.key not in keys_:
+                    scope.append(g_)
+                    grew_ = True
         ncmp = 0
         bad = []
         for g_ in scope:
@@ -155,19 +163,20 @@ def run(ctx):
                     if not sliced:
                         bad.append(g_.bloc(bi))
         # closure comparing `h == discrim` where discrim is a captured slice: the captured operand is sliced in the parent
-        for bi, bb in enumerate(f.blocks):
-            for s in bb["s"]:
-                v = s.get("v")
-                if v and v["r"] == "agg" and v.get("ak") == "closure":
-                    cl = prog.fns.get(f.dinfo(v["def"])["key"])
-                    if cl is None or not any(_name(cl, b2["t"]) in ("eq", "ne") for b2 in cl.blocks if b2["t"]["k"] == "call"):
-                        continue
-                    for o in v["a"]:
-                        d = ctx.slicer.operand(f, o, at=bi)
-                        if d.has_field(INSTR, "data"):
-                            ncmp += 1
-                            if not (d.has_call(prog, {"name": "index"}) and {0, 8} <= d.ints and ("core::ops::range::Range", "Range") in d.variants):
-                                bad.append(f.bloc(bi))
+        for pf in scope:
+            for bi, bb in enumerate(pf.blocks):
+                for s in bb["s"]:
+                    v = s.get("v")
+                    if v and v["r"] == "agg" and v.get("ak") == "closure":
+                        cl = prog.fns.get(pf.dinfo(v["def"])["key"])
+                        if cl is None or not any(_name(cl, b2["t"]) in ("eq", "ne") for b2 in cl.blocks if b2["t"]["k"] == "call"):
+                            continue
+                        for o in v["a"]:
+                            d = ctx.slicer.operand(pf, o, at=bi)
+                            if d.has_field(INSTR, "data"):
+                                ncmp += 1
+                                if not (d.has_call(prog, {"name": "index"}) and {0, 8} <= d.ints and ("core::ops::range::Range", "Range") in d.variants):
+                                    bad.append(pf.bloc(bi))
         ctx.inst("C10.R1", "discriminator-compare/" + fn, ncmp >= 1 and not bad, "every comparison of instruction data against an expected discriminator uses exactly data[0..8]",
                  "comparisons=%d not-sliced=%s" % (ncmp, bad), f.loc(f.raw["span"]))
     vl = prog.find_fns({"name": "validate_ix_last", "crate": "marginfi"})
